@@ -154,7 +154,7 @@ pub fn aranges_stream(ctx: &mut Ctx) {
             }
         }
     }
-    let n = ctx.size(5_000, 60_000, 6);
+    let n = ctx.size(15_000, 120_000, 6);
     for i in 0..n {
         if !ctx.want("aranges.rand", i) {
             continue;
@@ -196,7 +196,7 @@ pub fn aranges_stream(ctx: &mut Ctx) {
 // ================================================================== pubnames / pubtypes
 
 pub fn pub_stream(ctx: &mut Ctx) {
-    let n = ctx.size(4_000, 40_000, 6);
+    let n = ctx.size(12_000, 80_000, 6);
     for i in 0..n {
         if !ctx.want("pub", i) {
             continue;
@@ -297,7 +297,7 @@ fn tiny_unit(enc: Enc, str_base: u64, addr_base: u64) -> (Vec<u8>, Vec<u8>) {
 }
 
 pub fn tables_stream(ctx: &mut Ctx) {
-    let n = ctx.size(4_000, 40_000, 6);
+    let n = ctx.size(10_000, 80_000, 6);
     for i in 0..n {
         if !ctx.want("tables", i) {
             continue;
